@@ -154,11 +154,13 @@ class reusable_storage_mtsafe: public reusable_storage {
 public:
     void *alloc(std::size_t sz)  {
         void *p;
+        COCLS_VERIF_POINT(rs_alloc_entry);
         if (_busy.exchange(true, std::memory_order_relaxed)) {
             p = ::operator new(sz+sizeof(reusable_storage_mtsafe **));
         } else {
             p = reusable_storage::alloc(sz+sizeof(reusable_storage_mtsafe **));
         }
+        COCLS_VERIF_POINT(rs_alloc_flagged);
         auto s = reinterpret_cast<reusable_storage_mtsafe **>(reinterpret_cast<char *>(p) + sz);
         *s = this;
         return p;
@@ -166,7 +168,9 @@ public:
     static void dealloc(void *ptr, std::size_t sz) {
         auto s = reinterpret_cast<reusable_storage_mtsafe **>(reinterpret_cast<char *>(ptr) + sz);
         auto me = *s;
+        COCLS_VERIF_POINT(rs_dealloc_entry);
         if (ptr == me->_ptr) {
+            COCLS_VERIF_POINT(rs_dealloc_pre_store);
             me->_busy.store(false, std::memory_order_relaxed);
         } else {
             ::operator delete(ptr);
